@@ -2,7 +2,8 @@
    rdata/dnssec.rs Timestamp (delegates to Serial),
    zonetree/in_memory/versioned.rs Version::next (= add 1).
    u32 values are N below 2^32; the wrap of wrapping_add is written out. *)
-From Coq Require Import NArith.
+From Coq Require Import NArith Bool.
+Local Open Scope bool_scope.
 From DV Require Import Base.Outcome C17.Gen.
 Local Open Scope N_scope.
 
@@ -59,3 +60,38 @@ Definition c17_cmp (a b : N) : outcome (option comparison) := serial_partial_cmp
 Definition c17_add (a n : N) : outcome N := serial_add a n.
 Definition c17_next (a : N) : outcome N := version_next a.
 Definition c17_ccmp (a b : N) : comparison := serial_canonical_cmp a b.
+
+(* ---- call sites deciding "which is newer" with the Serial order ----------
+   PartialOrd-derived operators on Serial / Timestamp: `a <= b` is true iff
+   partial_cmp is Some(Less | Equal), `a >= b` iff Some(Greater | Equal),
+   `a < b` iff Some(Less); all false when the comparison is undefined. *)
+Definition serial_le (a b : N) : bool :=
+  match serial_partial_cmp a b with Ok (Some Lt) | Ok (Some Eq) => true | _ => false end.
+Definition serial_ge (a b : N) : bool :=
+  match serial_partial_cmp a b with Ok (Some Gt) | Ok (Some Eq) => true | _ => false end.
+Definition serial_lt (a b : N) : bool :=
+  match serial_partial_cmp a b with Ok (Some Lt) => true | _ => false end.
+
+(* dnssec/validator/group.rs Group::check_sig:
+   if !(ts_now <= rrsig.expiration() && ts_now >= rrsig.inception()) { return false } *)
+Definition sig_time_ok (now inception expiration : N) : bool :=
+  if sig_time_uses_serial_order
+  then serial_le now expiration && serial_ge now inception
+  else (now <=? expiration) && (inception <=? now).
+
+(* net/server/middleware/xfr/service.rs: `if query_serial >= soa.serial()` ->
+   answer an IXFR query with the single SOA (client is up to date) *)
+Definition ixfr_client_up_to_date (query_serial zone_serial : N) : bool :=
+  if ixfr_uptodate_is_serial_ge then serial_ge query_serial zone_serial
+  else zone_serial <=? query_serial.
+
+(* zonetree/types.rs InMemoryZoneDiffBuilder::build:
+   `start_serial == end_serial || end_serial < start_serial` -> error *)
+Definition diff_range_rejected (start_serial end_serial : N) : bool :=
+  if diff_range_rejects_eq_or_serial_lt
+  then (start_serial =? end_serial) || serial_lt end_serial start_serial
+  else (end_serial <=? start_serial).
+
+Definition c17_sigtime (now i e : N) : bool := sig_time_ok now i e.
+Definition c17_uptodate (q z : N) : bool := ixfr_client_up_to_date q z.
+Definition c17_diffrange (s e : N) : bool := diff_range_rejected s e.
